@@ -316,6 +316,9 @@ class Exprs:
             return mk_bin("Eq", strip_refs(args[0]), strip_refs(args[1]))
         if len(args) == 2 and (callee.endswith("PartialEq<&B> for &A>::ne") or callee.endswith("PartialEq for str>::ne")):
             return mk_bin("Ne", strip_refs(args[0]), strip_refs(args[1]))
+        if callee in ("std::mem::replace", "core::mem::replace") and len(args) == 2 and args[0][0] == "ref":
+            # `mem::replace(&mut P, v)` hands back what P held before the call
+            return mk_deref(args[0])
         if callee == "<board::Square as std::convert::From<board::Piece>>::from":
             return ("agg", "board::Square", "Full", args)
         if t.get("callee") == "std::convert::Into::into" and callee.endswith("::into"):
